@@ -345,6 +345,50 @@ func c36(c *an.Check) {
 		pv, ok := call.Call.Value.(*ssa.Parameter)
 		return ok && pv.Type().String() == "func() <-chan struct{}"
 	}, 1)
+	// ... and the channel the loop first waits on is obtained BEFORE the callbacks that broadcast are registered: when an
+	// equivalent directive already has values the bus replays them inside AddDirective, and a channel fetched afterwards
+	// misses that wake-up (the first "exists" stays queued until an unrelated event)
+	takesWaitCh := func(i ssa.Instruction) bool {
+		call, ok := i.(*ssa.Call)
+		if !ok {
+			return false
+		}
+		fo := an.CallObj(call.Common())
+		if fo == nil || fo.Name() != "HoldLock" {
+			return false
+		}
+		for _, a := range an.CallArgs(call.Common()) {
+			mc, isMC := a.(*ssa.MakeClosure)
+			if !isMC {
+				continue
+			}
+			for _, b := range mc.Fn.(*ssa.Function).Blocks {
+				for _, ins := range b.Instrs {
+					if cc, isCall := ins.(*ssa.Call); isCall {
+						if pv, isP := cc.Call.Value.(*ssa.Parameter); isP && pv.Type().String() == "func() <-chan struct{}" {
+							return true
+						}
+					}
+				}
+			}
+		}
+		return false
+	}
+	nAdd := 0
+	for _, b := range lk.Blocks {
+		for _, ins := range b.Instrs {
+			if call, ok := ins.(*ssa.Call); ok && call.Call.IsInvoke() && call.Call.Method.Name() == "AddDirective" {
+				nAdd++
+			}
+		}
+	}
+	c.Gate(an.GateSpec{Rule: "WAITCH", Construct: "rpc/access LookupRpcService registers its callbacks", Fn: lk,
+		Sink: func(s *an.State, ins ssa.Instruction) bool {
+			call, ok := ins.(*ssa.Call)
+			return ok && call.Call.IsInvoke() && call.Call.Method.Name() == "AddDirective"
+		},
+		Reqs: []an.Req{{Name: "the first wait channel was already obtained", Holds: func(s *an.State, at ssa.Instruction) bool { return s.Executed(at, takesWaitCh) }}}})
+	c.Require(nAdd == 1, "WAITCH", "rpc/access LookupRpcService AddDirective site found", lk, "", nAdd, "one AddDirective call", "anchor drift: expected exactly one AddDirective call")
 	// MIRROR: component id encoding
 	mc, uc := p.Func(accPkg, "LookupRpcServiceRequest", "MarshalComponentID"), p.Func(accPkg, "LookupRpcServiceRequest", "UnmarshalComponentID")
 	okM := mc != nil && uc != nil
